@@ -11,9 +11,16 @@ reads; everything after `|` is reconstruction data):
   c17pvalue    <obs> <alpha> <pvalue|score|maxscore> <method hex> | <x f64 bits> <pssm>
   c17rc        <obs> <alpha> | <pssm>
   c17scan      <obs> <pssm alpha> <seq alpha> | <backend> <thr bits> <block> <L> <symbols> <pssm>
+  c17reuse     <obs> <k> <step kind>*k | <backend> <L> <symbols> (<thr bits> <block> <pssm>)*k
+                 ONE StripedSequence object (DNA) used by k steps in order; step kind := c (calculate) | s (scan()) | S (Scanner())
+                 obs = ok:chain… | <exception>@<step>
   c17create    <obs> <alpha> <n> <item>*n
   c17stripe    <obs> <alpha> <text hex>
-  c17load      <obs> <file kind> <format hex> <protein> <n> (<kind> <obs>)*n | <hex file>
+  c17load      <obs> <file kind> <format hex> <protein> <n> (<kind> <obs>)*n | <hex file> [<chunk seed> <record boundaries b1,b2,… | ->]
+                 file kind := path | missing | binary (io.BytesIO) | text | noread
+                            | chunked  (a file-like class whose read(n) returns 1..min(n, 64) bytes, sometimes exactly up to a record boundary)
+                            | boundary (… whose read(n) returns exactly up to the next record boundary)
+                            | bytearray | memoryview (… whose read returns that type instead of bytes)
   c17cminit    <alpha> <column>*K
   c17sminit    <alpha> <pyarg> <column>*K
 
@@ -643,6 +650,72 @@ def exec_scan(cx, head, tail):
     return " ".join(line.split()), "adm-ok", verdict(errs), nontrivial, key
 
 
+# ------------------------------------------------------------------ c17reuse
+def exec_reuse(cx, head, tail):
+    """reuse histories of ONE striped sequence object through calculate, scan() and Scanner(): every
+    step must configure the sequence for ITS motif (narrow then wide needs more look-ahead rows)"""
+    k = int(head[2])
+    kinds = head[3:3 + k]
+    tk = Toks(tail)
+    backend, L = tk.next(), tk.int()
+    syms = tk.ints(L)
+    steps = []
+    for _ in range(k):
+        thr, block = tk.int(), tk.int()
+        steps.append((thr, block, parse_pssm(tk, "dna")))
+    common.set_backend(backend)
+    seq = mk_striped(cx.lm, "dna", syms)
+    errs, outs, outcome = [], [], "ok"
+    for n, (kind, (thr, block, spec)) in enumerate(zip(kinds, steps)):
+        pssm = mk_pssm(cx.lm, "dna", spec)
+        t = bits_f32(thr)
+        rows = spec[0]
+        M = len(rows)
+        npos = max(0, L - M + 1)
+        want = [score_def("dna", rows, syms, p) for p in range(npos)]
+        if kind == "c":
+            g = guarded(lambda: scores_line(pssm.calculate(seq), thr))
+        else:
+            def run():
+                sc = (cx.lm.scan(pssm, seq, threshold=t, block_size=block) if kind == "s" else cx.lm.Scanner(pssm, seq, t, block))
+                hits = sorted((h.position, f32_bits(h.score)) for h in sc)
+                del sc      # the scanner refers to the sequence: gone before the sequence is used again
+                return hits
+            g = guarded(run)
+        what = {"c": "calculate()", "s": "scan()", "S": "Scanner()"}[kind]
+        hist = " -> ".join(f"{kk}:{len(st[2][0])}" for kk, st in zip(kinds[:n + 1], steps))
+        if g[0] != "ok":
+            outcome = f"{g[0]}@{n}"
+            errs.append(f"reuse history {hist} (step kind:motif rows) on one sequence of {L}: step {n} {what} raised {g[0]}: {g[1]}")
+            break
+        if kind == "c":
+            line, vals = g[1][0], g[1][1]
+            outs.append(line)
+            if vals != want:
+                errs.append(f"reuse history {hist}: step {n} calculate(): scores differ from Σ m[j][s[i+j]]")
+        else:
+            outs.append("ok " + " ".join(f"{p}:{s}" for p, s in g[1]))
+            if all(r_[-1] == NEG_INF for r_ in rows):
+                wh = [(p, s) for p, s in enumerate(want) if bits_f32(s) >= t]
+                if g[1] != wh:
+                    errs.append(f"reuse history {hist}: step {n} {what}: {len(g[1])} hits, the positions scoring >= {t!r} are {len(wh)}: "
+                                f"first difference {next((x for x in zip(g[1] + [None], wh + [None]) if x[0] != x[1]), None)}")
+    common.set_backend("auto")
+    labels = []
+    args = f"{L} {join(syms)} {k} " + " ".join(f"{'c' if kd == 'c' else 's'} {thr} {block} {pssm_tokens(spec)}" for kd, (thr, block, spec) in zip(kinds, steps))
+    r = cx.core.ask(backend, "reuse", "dna", args)
+    if outcome == "ok":
+        if [norm(x) for x in outs] == [norm(x) for x in r.split(" ; ")]:
+            labels.append("chain")
+        else:
+            errs.append("reuse history: Python scores / hits differ from the core library on the same data (one sequence configured before every step)")
+    line = (f"c17reuse {obs_of(outcome if '@' in outcome else 'ok', labels)} {k} {' '.join(kinds)} | {backend} {L} {join(syms)} "
+            + " ".join(f"{thr} {block} {pssm_tokens(spec)}" for thr, block, spec in steps))
+    widths = [len(st[2][0]) for st in steps]
+    grows = any(w > max(widths[:i]) for i, w in enumerate(widths) if i and kinds[i] != "c")
+    return " ".join(line.split()), "adm-ok", verdict(errs), grows, "reuse/" + "".join(kinds)
+
+
 # ------------------------------------------------------------------ c17create
 def motif_line(m):
     counts = m.counts
@@ -758,6 +831,44 @@ def exec_stripe(cx, head, tail):
 
 
 # ------------------------------------------------------------------ c17load
+class ShortReader:
+    """a binary file-like object that is neither a path nor an io class: read(n) returns FEWER than n
+    bytes before the end of the data (legal for a raw stream; only b"" means end of file).
+      chunked  : 1..min(n, 64) bytes (seeded), one time in three exactly up to the next record boundary
+      boundary : exactly up to the next record boundary (the rest of the data after the last one)
+    `wrap` converts what read returns (bytes, bytearray, memoryview)."""
+
+    def __init__(self, data, mode, seed, cuts, wrap=bytes):
+        self.data, self.pos, self.mode, self.wrap = data, 0, mode, wrap
+        self.rng = common.Rng(seed)
+        self.cuts = sorted(c for c in cuts if 0 < c < len(data)) + [len(data)]
+        self.calls = 0
+        self.short = 0      # reads that returned fewer bytes than asked although data was left
+
+    def read(self, n=-1):
+        self.calls += 1
+        left = len(self.data) - self.pos
+        if n is None or n < 0:
+            n = left
+        n = min(n, left)
+        if n > 0:
+            to_cut = next(c for c in self.cuts if c > self.pos) - self.pos
+            if self.mode == "boundary":
+                k = min(n, to_cut)
+            elif self.rng.chance(1, 3) and to_cut <= n:
+                k = to_cut
+            else:
+                k = self.rng.range(1, min(n, 64))
+            if k < n:
+                self.short += 1
+            n = k
+        out = self.data[self.pos:self.pos + n]
+        self.pos += n
+        return self.wrap(out)
+
+
+FILELIKE = ("binary", "chunked", "boundary")          # read(0) returns bytes: accepted
+NOT_BYTES = ("text", "bytearray", "memoryview")        # read(0) returns something else: TypeError
 READERS = {"jaspar": "readJaspar", "jaspar16": "readJaspar16", "transfac": "readTransfac", "uniprobe": "readUniprobe"}
 FROM_COUNTS = ".pseudoUniform.toFreq.toWeight.toScoring.motif"
 
@@ -775,6 +886,9 @@ def exec_load(cx, head, tail):
     fmt = (b"" if head[3] == "-" else bytes.fromhex(head[3])).decode()
     protein = head[4] == "1"
     data = b"" if tail[0] == "-" else bytes.fromhex(tail[0])
+    cseed = int(tail[1]) if len(tail) > 1 else 0
+    cuts = [int(x) for x in tail[2].split(",")] if len(tail) > 2 and tail[2] != "-" else []
+    extra = "".join(" " + x for x in tail[1:3])
     alpha = "protein" if protein else "dna"
     tmp = None
     if kind in ("path", "missing"):
@@ -789,24 +903,28 @@ def exec_load(cx, head, tail):
         fobj = _io.BytesIO(data)
     elif kind == "text":
         fobj = _io.StringIO(data.decode("latin-1"))
+    elif kind in ("chunked", "boundary"):
+        fobj = ShortReader(data, kind, cseed, cuts)
+    elif kind in ("bytearray", "memoryview"):
+        fobj = ShortReader(data, "chunked", cseed, cuts, wrap=(bytearray if kind == "bytearray" else memoryview))
     else:
         fobj = 12345
     errs, key = [], f"load/{fmt if fmt in READERS else 'other'}/{kind}"
     core_all = None
-    if kind in ("path", "binary") and fmt in READERS and not (fmt == "jaspar" and protein):
+    if kind in ("path",) + FILELIKE and fmt in READERS and not (fmt == "jaspar" and protein):
         core_all = cx.core.ask("auto", "load", alpha, f"{fmt} {hexs(data)}")
     if core_all in ("hang", "died"):
         # the core reader does not terminate on this input (C15): Python is not run; not applicable to C17
         if tmp:
             os.unlink(tmp)
-        line = f"c17load ok:{READERS[fmt]} {kind} {hexs(fmt)} {1 if protein else 0} 0 | {hexs(data)}"
+        line = f"c17load ok:{READERS[fmt]} {kind} {hexs(fmt)} {1 if protein else 0} 0 | {hexs(data)}{extra}"
         return " ".join(line.split()), "adm-ok", None, False, "excluded/core-reader-" + core_all
     g = guarded(lambda: cx.lm.load(fobj, fmt, protein=protein))
     # expected outcome of opening, by the documented order: the file first, then the format
     expect = None
     if kind == "missing":
         expect = ("FileNotFoundError", "OSError")
-    elif kind == "text":
+    elif kind in NOT_BYTES:
         expect = ("TypeError",)
     elif kind == "noread":
         expect = ("AttributeError", "TypeError")
@@ -867,8 +985,11 @@ def exec_load(cx, head, tail):
     if tmp:
         os.unlink(tmp)
     line = (f"c17load {init_obs} {kind} {hexs(fmt)} {1 if protein else 0} {len(recs)} "
-            + " ".join(f"{k} {o}" for k, o in recs) + f" | {hexs(data)}")
-    return " ".join(line.split()), "adm-ok", verdict(errs), len(recs) >= 2, key
+            + " ".join(f"{k} {o}" for k, o in recs) + f" | {hexs(data)}{extra}")
+    if kind in ("chunked", "boundary") and g[0] == "ok":
+        cx.out.stat("load/short-reads", fobj.short)
+    nontrivial = len(recs) >= 2 or (kind in ("chunked", "boundary") and len(recs) >= 1 and fobj.short >= 1)
+    return " ".join(line.split()), "adm-ok", verdict(errs), nontrivial, key
 
 
 # ------------------------------------------------------------------ c17cminit / c17sminit (exact answers)
@@ -1005,7 +1126,7 @@ def exec_sminit(cx, head, tail):
 
 
 EXEC = {"c17normalize": exec_normalize, "c17logodds": exec_logodds, "c17calc": exec_calc, "c17pvalue": exec_pvalue,
-        "c17rc": exec_rc, "c17scan": exec_scan, "c17create": exec_create, "c17stripe": exec_stripe, "c17load": exec_load,
+        "c17rc": exec_rc, "c17scan": exec_scan, "c17reuse": exec_reuse, "c17create": exec_create, "c17stripe": exec_stripe, "c17load": exec_load,
         "c17cminit": exec_cminit, "c17sminit": exec_sminit}
 
 
@@ -1116,6 +1237,20 @@ def render_file(fmt, alpha, recs, rng):
                 out.append(f"{le[a]}:\t" + "\t".join(vals) + "\n")
             out.append("\n")
     return "".join(out).encode()
+
+
+def boundaries(fmt, alpha, recs, rng):
+    """offsets at which a record of the rendered file ends"""
+    return [len(render_file(fmt, alpha, recs[:i], rng)) for i in range(1, len(recs))]
+
+
+def load_cases(rng, fmt, prot, data, cuts):
+    """the same bytes through every way of handing a file to load(): a path, io.BytesIO, file-like
+    objects with short reads (random chunks / chunks ending on record boundaries), and a file-like
+    object whose read returns bytearray / memoryview"""
+    c = ",".join(str(x) for x in cuts) or "-"
+    kinds = ["path", "binary", "chunked", "boundary", rng.pick(["bytearray", "memoryview"])]
+    return [f"c17load ? {k} {hexs(fmt)} {prot} 0 | {hexs(data)} {rng.below(1 << 32)} {c}" for k in kinds]
 
 
 def generate(cfg, core, out):
@@ -1295,6 +1430,25 @@ def generate(cfg, core, out):
     for pa, sa in [("protein", "protein"), ("dna", "protein"), ("protein", "dna")]:
         syms = rand_syms(rng, sa, 40)
         cases.append(f"c17scan ? {pa} {sa} | auto {f32_bits(0.0)} 256 40 {join(syms)} {pssm_tokens((rand_pssm(rng, pa, 3), None))}")
+    # ---- ONE striped sequence object reused through calculate / scan() / Scanner() with motifs of
+    #      different widths: narrow then wide (more look-ahead rows needed), wide then narrow, three and four steps
+    histories = [("cs", "nw"), ("cS", "nw"), ("ss", "nw"), ("SS", "nw"), ("sS", "wn"), ("cs", "wn"), ("sc", "nw"),
+                 ("sSs", "nwm"), ("csc", "nmw"), ("sScS", "nwnw"), ("Scs", "wnx")]
+    for rep in range(1 if not big else 4):
+        for kinds, shape in histories:
+            L = rng.pick([40, 64, 100, 257, 700] + ([1500, 5000] if big else []))
+            syms = rand_syms(rng, "dna", L, wild=rng.chance(1, 3))
+            R = (L + 31) // 32
+            steps = []
+            for sh in shape:
+                M = {"n": rng.range(2, 6), "m": rng.range(7, 11), "w": rng.range(12, 22), "x": rng.range(23, 30)}[sh]
+                rows = logodds_pssm(rng, "dna", M, pseudo=rng.pick([0.1, 0.5, 1.0]))
+                scores = sorted(bits_f32(score_def("dna", rows, syms, p)) for p in range(L - M + 1))
+                finite = [x for x in scores if x > float("-inf")] or [0.0]
+                thr = rng.pick([scores[int(len(scores) * 0.9)], scores[len(scores) // 2], scores[-1], finite[0] - 1.0])
+                block = rng.pick([1, 3, 16, 256, max(1, R - 1), R, R + M - 1])
+                steps.append(f"{f32_bits(r32(thr))} {block} {pssm_tokens((rows, None))}")
+            cases.append(f"c17reuse ? {len(kinds)} {' '.join(kinds)} | {rng.pick(BACKENDS)} {L} {join(syms)} " + " ".join(steps))
     # ---- files in the four formats
     for fmt in ("jaspar", "jaspar16", "transfac", "uniprobe"):
         for rep in range(reps):
@@ -1310,15 +1464,15 @@ def generate(cfg, core, out):
             if r in ("hang", "died"):
                 out.stat("excluded/core-reader-" + r)
                 continue
-            kind = ["path", "binary", "binary"][rep % 3]
-            cases.append(f"c17load ? {kind} {hexs(fmt)} 0 0 | {hexs(data)}")
+            cuts = boundaries(fmt, "dna", recs, rng)
+            cases += load_cases(rng, fmt, 0, data, cuts)
             if rep == 0:
                 # a damaged copy: the error of the core reader must surface as an ordinary exception
                 k = max(i for i, ch in enumerate(data) if chr(ch).isdigit())
                 for cut in (data[:k] + b"q" + data[k + 1:], data[: len(data) * 2 // 3]):
                     r = core.ask("auto", "load", "dna", f"{fmt} {hexs(cut)}")
                     if r not in ("hang", "died"):
-                        cases.append(f"c17load ? binary {hexs(fmt)} 0 0 | {hexs(cut)}")
+                        cases += load_cases(rng, fmt, 0, cut, cuts)[:4]
                     else:
                         out.stat("excluded/core-reader-" + r)
         cases.append(f"c17load ? missing {hexs(fmt)} 0 0 | -")
@@ -1326,11 +1480,11 @@ def generate(cfg, core, out):
     for kind, fmt, prot in [("text", "jaspar16", 0), ("noread", "jaspar16", 0), ("binary", "foo", 0), ("binary", "", 0),
                             ("binary", "jaspar", 1), ("path", "JASPAR", 0), ("missing", "foo", 0)]:
         cases.append(f"c17load ? {kind} {hexs(fmt)} {prot} 0 | {hexs(small)}")
-    prot_recs = [("P1", "", [[rng.below(9) for _ in range(20)] + [0] for _ in range(3)])]
+    prot_recs = [(f"P{i}", "", [[rng.below(9) for _ in range(20)] + [0] for _ in range(3)]) for i in (1, 2)]
     for fmt in ("jaspar16", "transfac", "uniprobe"):
         data = render_file(fmt, "protein", prot_recs, rng)
         if core.ask("auto", "load", "protein", f"{fmt} {hexs(data)}") not in ("hang", "died"):
-            cases.append(f"c17load ? binary {hexs(fmt)} 1 0 | {hexs(data)}")
+            cases += load_cases(rng, fmt, 1, data, boundaries(fmt, "protein", prot_recs, rng))
     # ---- random stream
     count = (400 if big else 40) * cfg.boost
     for _ in range(count):
